@@ -534,7 +534,14 @@ func (runInfo *runInfoStruct) runForSliceStmt(stmt *ast.ForStmt, value reflect.V
 
 // runForMapStmt executes a for statement over a map.
 func (runInfo *runInfoStruct) runForMapStmt(stmt *ast.ForStmt, value reflect.Value) {
-	keys := value.MapKeys()
+	// the entries as they are when the loop starts; the values are kept for the keys that cannot be looked up again
+	// (a NaN key equals nothing, also not itself)
+	keys := make([]reflect.Value, 0, value.Len())
+	startValues := make([]reflect.Value, 0, value.Len())
+	for iter := value.MapRange(); iter.Next(); {
+		keys = append(keys, iter.Key())
+		startValues = append(startValues, iter.Value())
+	}
 	for i := 0; i < len(keys); i++ {
 		select {
 		case <-runInfo.ctx.Done():
@@ -546,8 +553,11 @@ func (runInfo *runInfoStruct) runForMapStmt(stmt *ast.ForStmt, value reflect.Val
 
 		mapValue := value.MapIndex(keys[i])
 		if !mapValue.IsValid() {
-			// the entry was deleted by an earlier iteration: like Go's range, do not produce it
-			continue
+			if !isSelfUnequalKey(keys[i]) {
+				// the entry was deleted by an earlier iteration: like Go's range, do not produce it
+				continue
+			}
+			mapValue = startValues[i]
 		}
 
 		runInfo.env.DefineValue(stmt.Vars[0], keys[i])
@@ -573,6 +583,18 @@ func (runInfo *runInfoStruct) runForMapStmt(stmt *ast.ForStmt, value reflect.Val
 		}
 	}
 	runInfo.rv = nilValue
+}
+
+// isSelfUnequalKey reports whether a map key is a NaN: such a key is in the map but no lookup finds it.
+func isSelfUnequalKey(key reflect.Value) bool {
+	if key.Kind() == reflect.Interface && !key.IsNil() {
+		key = key.Elem()
+	}
+	switch key.Kind() {
+	case reflect.Float32, reflect.Float64:
+		return key.Float() != key.Float()
+	}
+	return false
 }
 
 // runForChanStmt executes a for statement over a channel.
